@@ -393,6 +393,76 @@ def run_witness(binpath, w):
                 bad_items.append("only %d positions reported for %d inputs (each input should raise an error with a position)" % (n_pos, len(srcs)))
             return {"cmd": "reftest-json-session <%d inputs>" % len(srcs), "exit": p.returncode, "stdout": p.stdout[-600:], "stderr": p.stderr[-300:],
                     "reproduced": bool(bad_items), "why": "; ".join(bad_items[:4])[:1500], "n_inputs": len(srcs), "failing_inputs": failing[:4]}
+        elif kind == "format-corpus":
+            # C17 bounded stand-in: every program (the listed ones plus the repository's own .gdn files that parse)
+            # is formatted; the output must parse without errors to the same syntax tree (`reftest-ast`, which
+            # elides positions) and carry the same comments
+            import glob
+            from concurrent.futures import ThreadPoolExecutor
+            progs = [(None, t) for t in w["input"]]
+            for pat in w.get("globs", []):
+                for fp in sorted(glob.glob(os.path.join(REPO, pat), recursive=True))[:w.get("max_files", 400)]:
+                    try:
+                        progs.append((os.path.relpath(fp, REPO), open(fp, encoding="utf-8").read().split("// args:")[0]))
+                    except Exception:
+                        pass
+
+            def comments(t):
+                # comment texts, ignoring indentation: a `//` outside a string literal up to the end of the line
+                out_, i, n, in_str = [], 0, len(t), False
+                while i < n:
+                    c = t[i]
+                    if in_str:
+                        if c == "\\":
+                            i += 2
+                            continue
+                        if c == '"':
+                            in_str = False
+                    elif c == '"':
+                        in_str = True
+                    elif t.startswith("//", i):
+                        j = t.find("\n", i)
+                        j = n if j < 0 else j
+                        out_.append(t[i:j].rstrip())
+                        i = j
+                        continue
+                    i += 1
+                return out_
+
+            def one(idx):
+                name, text = progs[idx]
+                f = os.path.join(tmpdir, "f%d.gdn" % idx)
+                f2 = os.path.join(tmpdir, "f%d_out.gdn" % idx)
+                open(f, "w", encoding="utf-8").write(text)
+                label = name or ("listed #%d" % idx)
+                try:
+                    a1 = subprocess.run([binpath, "reftest-ast", f], capture_output=True, text=True, timeout=30, cwd=tmpdir)
+                    if a1.returncode != 0 or "panicked at" in a1.stderr or "Error" in a1.stderr[:200]:
+                        return None       # does not parse: outside the property
+                    p = subprocess.run([binpath, "format", f], capture_output=True, text=True, timeout=30, cwd=tmpdir)
+                    if p.returncode == 101 or "panicked at" in p.stderr:
+                        return "%s: format panicked: %s" % (label, p.stderr[-160:])
+                    if p.returncode != 0:
+                        return None
+                    open(f2, "w", encoding="utf-8").write(p.stdout)
+                    a2 = subprocess.run([binpath, "reftest-ast", f2], capture_output=True, text=True, timeout=30, cwd=tmpdir)
+                    if a2.returncode != 0:
+                        return "%s: the formatted text no longer parses: %s" % (label, (a2.stderr or a2.stdout)[-200:])
+                    if a1.stdout != a2.stdout:
+                        import difflib
+                        d = [ln for ln in difflib.unified_diff(a1.stdout.split("\n"), a2.stdout.split("\n"), lineterm="", n=0) if not ln.startswith(("---", "+++", "@@"))][:4]
+                        return "%s: the syntax tree changed: %s" % (label, " | ".join(d)[:300])
+                    if comments(text) != comments(p.stdout):
+                        return "%s: the comments changed: %r vs %r" % (label, comments(text)[:3], comments(p.stdout)[:3])
+                except subprocess.TimeoutExpired:
+                    return "%s: timeout" % label
+                return None
+            with ThreadPoolExecutor(max_workers=12) as ex:
+                res = list(ex.map(one, range(len(progs))))
+            bad_items = [r for r in res if r]
+            return {"cmd": "format <%d programs>" % len(progs), "exit": 0, "stdout": "", "stderr": "",
+                    "reproduced": bool(bad_items), "why": "; ".join(bad_items[:4])[:1800], "n_inputs": len(progs),
+                    "failing_inputs": [progs[i][1][:400] for i, r in enumerate(res) if r][:4]}
         elif kind == "rename-corpus":
             # C19 bounded stand-in: each item renames the variable at `offset` (the first occurrence of `at`) to a
             # fresh name; the renamed program must print what the original printed, and exactly `count`
